@@ -91,7 +91,7 @@ def gen_case(rnd, thorough, force=None):
     else:
         R = rnd.randint(17, 40)
     patch = rnd.randint(1, min(4, R - 1))
-    tsize = rnd.randint(1, 4) if team else 1
+    tsize = rnd.choice([1, 2, 3, 3, 4, 5, 6, 7]) if team else 1
     nslots = rnd.randint(2, 4)
     syms = gen_sset(rnd, ncats)
     nops = rnd.randint(1, 60 if not team else 25)
